@@ -134,6 +134,7 @@ extern "C" unsigned sym_u32(const char* name, unsigned lo, unsigned hi) {
   unsigned v = (it == g_inputs.end()) ? lo : it->second;
   return v;
 }
+extern "C" unsigned sym_vs(const char* name, unsigned lo, unsigned hi) { return sym_u32(name, lo, hi); }
 extern "C" void sym_out(const char* name, unsigned idx, unsigned v) { printf("OUT %s %u %u\n", name, idx, v); }
 extern "C" void harness();
 int main(int argc, char** argv) {
